@@ -24,6 +24,31 @@ EVC = f"{PL_MOD}:EigenvalueCorrectedShampooPreconditionerList"
 BASE = f"{PL_MOD}:BaseShampooPreconditionerList"
 
 
+def _deref_dtype_local(func: ast.AST, d: ast.AST) -> ast.AST:
+    """A local bound exactly once (plain or element-wise tuple assignment) to an attribute chain ending in `dtype` / `_dtype`
+    stands for that chain: a tensor's dtype and the constructor-fixed dtype attributes do not change between the binding and
+    the allocation."""
+    for _ in range(3):
+        if not isinstance(d, ast.Name):
+            break
+        defs = []
+        for n in A.walk_no_nested(func):
+            if isinstance(n, (ast.Assign, ast.AnnAssign)) and n.value is not None:
+                for t in n.targets if isinstance(n, ast.Assign) else [n.target]:
+                    if isinstance(t, ast.Name) and t.id == d.id:
+                        defs.append(n.value)
+                    elif isinstance(t, ast.Tuple) and isinstance(n.value, ast.Tuple) and len(t.elts) == len(n.value.elts):
+                        defs += [v for x, v in zip(t.elts, n.value.elts) if isinstance(x, ast.Name) and x.id == d.id]
+                    elif isinstance(t, ast.Tuple) and any(isinstance(x, ast.Name) and x.id == d.id for x in ast.walk(t)):
+                        defs.append(None)
+            elif isinstance(n, (ast.For, ast.comprehension, ast.NamedExpr, ast.AugAssign)) and any(isinstance(x, ast.Name) and x.id == d.id for x in ast.walk(n.target)):
+                defs.append(None)
+        if len(defs) != 1 or defs[0] is None or not (isinstance(defs[0], ast.Attribute) and defs[0].attr.endswith("dtype")):
+            break
+        d = defs[0]
+    return d
+
+
 def allocation_dtypes(ctx) -> dict[str, set[str]]:
     """state kind -> set of dtype expressions used at its allocate_zeros_tensor call sites."""
     repo = ctx.repo
@@ -42,6 +67,7 @@ def allocation_dtypes(ctx) -> dict[str, set[str]]:
                 for t in pts.tensors(pts.expr(fi.qual, c)):
                     ks |= kinds.get(t, set())
                 # a dtype handed in as a parameter is whatever the callers pass for it
+                d = _deref_dtype_local(fi.node, d)  # `block_dtype = block.dtype` (also in a tuple assignment) names the dtype
                 texts = {_norm(d)}
                 if isinstance(d, ast.Name) and d.id in fi.params:
                     texts = A.argument_sources(repo, fi, d.id) or texts
@@ -166,7 +192,7 @@ def eigenvector_dispatch(ctx, rep, rule: str) -> None:
     ok = one is not None and "numel(A) == 1" in _norm(one.test) and len(one.body) == 1 and _norm(one.body[0]) == "return torch.ones_like(A)"
     rep.ob(rule, "eigenvector-fast-path:1x1-is-one", ok, fi.loc(one) if one is not None else fi.loc(), "a 1-element input yields ones_like(A)")
     dg = [x for x in body if _norm(x.test) == "is_diagonal"]
-    ok = len(dg) == 1 and len(dg[0].body) == 1 and isinstance(dg[0].body[0], ast.Return) and "torch.eye(" in _norm(dg[0].body[0]) and "A.shape[0]" in _norm(dg[0].body[0]) and "dtype=A.dtype" in _norm(dg[0].body[0])
+    ok = len(dg) == 1 and len(dg[0].body) == 1 and isinstance(dg[0].body[0], ast.Return) and "torch.eye(" in A.tnorm(dg[0].body[0].value) and "A.shape[0]" in A.tnorm(dg[0].body[0].value) and "dtype=A.dtype" in A.tnorm(dg[0].body[0].value)
     rep.ob(rule, "eigenvector-fast-path:diagonal-is-identity", ok, fi.loc(dg[0]) if dg else fi.loc(), "a diagonal-flagged input yields the identity of A's size and dtype")
 
 
